@@ -109,6 +109,13 @@ pub struct ShapeSpec {
 pub fn draw_shape<R: RecUni>(rng: &mut Rng, tier: Tier, force_kind: Option<&str>) -> ShapeSpec {
     let mut fri = if rng.chance(1, 4) { FriShape::testing() } else { FriShape::swarm(rng) };
     fri.log_blowup = fri.log_blowup.max(R::MIN_LOG_BLOWUP);
+    if R::MIN_LOG_BLOWUP > 1 && rng.chance(1, 3) {
+        // hiding universes: a cap as tall as the last folded layers, so that late commit-phase
+        // openings carry a salt (salted MMCS) but no sibling digests
+        fri.cap_height = 2;
+        fri.log_blowup = 2;
+        fri.log_final_poly_len = 0;
+    }
     let kind = force_kind.map(|s| s.to_string()).unwrap_or_else(|| if rng.chance(1, 2) { "uni".into() } else { "batch".into() });
     let mut log_n = rng.range(0, tier.pick(5, 7));
     if log_n < fri.log_final_poly_len + 1 {
